@@ -1,0 +1,111 @@
+//go:build verif
+
+// Contracts for govc (see /verif/DESIGN.md). Comment-only; compiled only with -tags verif.
+
+package fastmsgpack
+
+//@ property C10 C07
+
+// ---- MessagePack item headers, written from the format specification (non-recursive decoders) -------------------
+// be16/be32: big-endian value of the 2/4 bytes at b[p..]
+//@ pure func be16(b []byte, p int) int := b[p] * 256 + b[p+1]
+//@ pure func be32(b []byte, p int) int := b[p] * 16777216 + b[p+1] * 65536 + b[p+2] * 256 + b[p+3]
+// declen(b, p, fix, c16, c32): length announced by a str/map/array header at p, -1 if b[p] is not such a header;
+// fixlo..fixhi is the fix-class byte range
+//@ pure func strlenat(b []byte, p int) int :=
+//@     160 <= b[p] && b[p] <= 191 ? b[p] - 160 : b[p] == 217 ? b[p+1] : b[p] == 218 ? be16(b, p+1) : b[p] == 219 ? be32(b, p+1) : -1
+//@ pure func strbodyat(b []byte, p int) int :=
+//@     160 <= b[p] && b[p] <= 191 ? p + 1 : b[p] == 217 ? p + 2 : b[p] == 218 ? p + 3 : p + 5
+//@ pure func maplenat(b []byte, p int) int :=
+//@     128 <= b[p] && b[p] <= 143 ? b[p] - 128 : b[p] == 222 ? be16(b, p+1) : b[p] == 223 ? be32(b, p+1) : -1
+//@ pure func mapbodyat(b []byte, p int) int := 128 <= b[p] && b[p] <= 143 ? p + 1 : b[p] == 222 ? p + 3 : p + 5
+//@ pure func arrlenat(b []byte, p int) int :=
+//@     144 <= b[p] && b[p] <= 159 ? b[p] - 144 : b[p] == 220 ? be16(b, p+1) : b[p] == 221 ? be32(b, p+1) : -1
+// strat(b, p, v, q): a string item equal to v occupies b[p:q)
+//@ pure func strat(b []byte, p int, v string, q int) bool :=
+//@     strlenat(b, p) == len(v) && q == strbodyat(b, p) + len(v) && string(b[strbodyat(b, p) : q]) == v
+
+//@ func Write2(buffer []byte, start int, n uint16) int
+//@   requires 0 <= start && start + 2 <= len(buffer)
+//@   modifies buffer[start : start+2]
+//@   ensures  result == start + 2 && be16(buffer, start) == n
+//@   canary ensures buffer[start] == n % 256
+
+//@ func Write4(buffer []byte, start int, n uint32) int
+//@   requires 0 <= start && start + 4 <= len(buffer)
+//@   modifies buffer[start : start+4]
+//@   ensures  result == start + 4 && be32(buffer, start) == n
+
+//@ func Write8(buffer []byte, start int, n uint64) int
+//@   requires 0 <= start && start + 8 <= len(buffer)
+//@   modifies buffer[start : start+8]
+//@   ensures  result == start + 8
+//@   ensures  buffer[start] == n / 72057594037927936 && buffer[start+1] == (n / 281474976710656) % 256 && buffer[start+2] == (n / 1099511627776) % 256
+//@   ensures  buffer[start+3] == (n / 4294967296) % 256 && buffer[start+4] == (n / 16777216) % 256 && buffer[start+5] == (n / 65536) % 256
+//@   ensures  buffer[start+6] == (n / 256) % 256 && buffer[start+7] == n % 256
+
+// the class preconditions are the weakest ones for which the decode clause holds
+//@ func EncodeArrayLen4(buffer []byte, start int, arrayLen int) int
+//@   requires 0 <= start && start + 1 <= len(buffer) && 0 <= arrayLen && arrayLen <= 15
+//@   modifies buffer[start : start+1]
+//@   ensures  result == start + 1 && arrlenat(buffer, start) == arrayLen && buffer[start] == 144 + arrayLen
+//@ func EncodeArrayLen16(buffer []byte, start int, arrayLen int) int
+//@   requires 0 <= start && start + 3 <= len(buffer) && 0 <= arrayLen && arrayLen <= 65535
+//@   modifies buffer[start : start+3]
+//@   ensures  result == start + 3 && arrlenat(buffer, start) == arrayLen
+//@ func EncodeArrayLen32(buffer []byte, start int, arrayLen int) int
+//@   requires 0 <= start && start + 5 <= len(buffer) && 0 <= arrayLen && arrayLen <= 4294967295
+//@   modifies buffer[start : start+5]
+//@   ensures  result == start + 5 && arrlenat(buffer, start) == arrayLen
+
+//@ func EncodeMapLen4(buffer []byte, start int, mapLen int) int
+//@   requires 0 <= start && start + 1 <= len(buffer) && 0 <= mapLen && mapLen <= 15
+//@   modifies buffer[start : start+1]
+//@   ensures  result == start + 1 && maplenat(buffer, start) == mapLen && mapbodyat(buffer, start) == start + 1 && buffer[start] == 128 + mapLen
+//@   canary ensures maplenat(buffer, start) == mapLen + 1
+//@ func EncodeMapLen16(buffer []byte, start int, mapLen int) int
+//@   requires 0 <= start && start + 3 <= len(buffer) && 0 <= mapLen && mapLen <= 65535
+//@   modifies buffer[start : start+3]
+//@   ensures  result == start + 3 && maplenat(buffer, start) == mapLen && mapbodyat(buffer, start) == start + 3
+//@ func EncodeMapLen32(buffer []byte, start int, mapLen int) int
+//@   requires 0 <= start && start + 5 <= len(buffer) && 0 <= mapLen && mapLen <= 4294967295
+//@   modifies buffer[start : start+5]
+//@   ensures  result == start + 5 && maplenat(buffer, start) == mapLen && mapbodyat(buffer, start) == start + 5
+
+//@ func EncodeStringLen4(buffer []byte, start int, strLen int) int
+//@   requires 0 <= start && start + 1 <= len(buffer) && 0 <= strLen && strLen <= 31
+//@   modifies buffer[start : start+1]
+//@   ensures  result == start + 1 && strlenat(buffer, start) == strLen && strbodyat(buffer, start) == start + 1 && buffer[start] == 160 + strLen
+//@ func EncodeStringLen16(buffer []byte, start int, strLen int) int
+//@   requires 0 <= start && start + 3 <= len(buffer) && 0 <= strLen && strLen <= 65535
+//@   modifies buffer[start : start+3]
+//@   ensures  result == start + 3 && strlenat(buffer, start) == strLen && strbodyat(buffer, start) == start + 3
+//@   canary ensures strlenat(buffer, start) == strLen % 256
+//@ func EncodeStringLen32(buffer []byte, start int, strLen int) int
+//@   requires 0 <= start && start + 5 <= len(buffer) && 0 <= strLen && strLen <= 4294967295
+//@   modifies buffer[start : start+5]
+//@   ensures  result == start + 5 && strlenat(buffer, start) == strLen && strbodyat(buffer, start) == start + 5
+
+//@ func EncodeString4(buffer []byte, start int, str string) int
+//@   requires 0 <= start && start + 1 + len(str) <= len(buffer) && len(str) <= 31
+//@   modifies buffer[start : start + 1 + len(str)]
+//@   ensures  result == start + 1 + len(str) && strat(buffer, start, str, result)
+//@ func EncodeString16(buffer []byte, start int, str string) int
+//@   requires 0 <= start && start + 3 + len(str) <= len(buffer) && len(str) <= 65535
+//@   modifies buffer[start : start + 3 + len(str)]
+//@   ensures  result == start + 3 + len(str) && strat(buffer, start, str, result)
+//@ func EncodeString32(buffer []byte, start int, str string) int
+//@   requires 0 <= start && start + 5 + len(str) <= len(buffer) && len(str) <= 4294967295
+//@   modifies buffer[start : start + 5 + len(str)]
+//@   ensures  result == start + 5 + len(str) && strat(buffer, start, str, result)
+
+// fixext8: 0xd7, type, 8 data bytes
+//@ func EncodeExtHeader8(buffer []byte, start int, typeID byte) int
+//@   requires 0 <= start && start + 2 <= len(buffer)
+//@   modifies buffer[start : start+2]
+//@   ensures  result == start + 2 && buffer[start] == 215 && buffer[start+1] == typeID
+
+//@ func EncodeInt32(buffer []byte, start int, value int32) int
+//@   requires 0 <= start && start + 5 <= len(buffer)
+//@   modifies buffer[start : start+5]
+//@   ensures  result == start + 5 && buffer[start] == 210 && be32(buffer, start + 1) == (value >= 0 ? value : value + 4294967296)
